@@ -466,10 +466,10 @@ def _check_case(ops, impl, skip_lines, stats):
     for i in range(1, min(len(ops), len(impl))):
         f = ops[i].split(" ")
         got = impl[i]
-        if got in ("skip", "hang") or f[0] == "wait":
-            if got == "hang" and i not in skip_lines:
+        if got == "skip" or got.startswith("hang") or f[0] in ("wait", "within"):
+            if got.startswith("hang") and i not in skip_lines:
                 bad.append((i, ops[i], "a reply", got))
-            if got == "hang":
+            if got.startswith("hang"):
                 break
             continue
         if f[0] in ("closeidle", "restart", "close"):
